@@ -20,6 +20,7 @@ class Env:
         self.io_policy = "c"       # 'c' | 'pyio' | 'nondet'
         self.sleeps = []
         self.in_hook = False
+        self.wait_timeout = None
 
     def read_clock(self):
         t = self.now
@@ -30,15 +31,19 @@ class Env:
         if dt is not None and dt > 0:
             self.now += dt
 
-    def run_hook(self, kind, obj):
+    def run_hook(self, kind, obj, timeout=None):
+        """timeout: how long the waiter is prepared to wait (None: for ever); a hook that models slow delivery
+        reads it from `wait_timeout` and delivers only what arrives in time"""
         h = self.delivery_hook
         if h is None or self.in_hook:
             return
         self.in_hook = True
+        self.wait_timeout = timeout
         try:
             h(kind, obj)
         finally:
             self.in_hook = False
+            self.wait_timeout = None
 
 
 ENV = Env()
